@@ -6,3 +6,6 @@ import Iota.Tie.C10
 import Iota.Props.C10
 import Iota.Tie.C15
 import Iota.Props.C15
+import Iota.Tie.Bech32
+import Iota.Props.C04
+import Iota.Props.C05
